@@ -1,7 +1,8 @@
 //@unit sv_onchain
-//@props C08
+//@props C08 C12
 // Contracts on SimpleValidator::{validate_onchain_tx, validate_beneficial_value}
-// (vls-core/src/policy/simple_validator.rs).
+// (vls-core/src/policy/simple_validator.rs) and on Node::check_onchain_tx (vls-core/src/node.rs): the validator is asked
+// about the channels found by funding outpoint and the accepted fee is counted by the fee velocity control.
 use vstd::prelude::*;
 use vstd::std_specs::cmp::OrdSpec;
 //@include prelude/core.rs
@@ -18,7 +19,9 @@ use vstd::std_specs::cmp::OrdSpec;
 //@map /&dyn Wallet/ => &VxWallet
 //@map /Vec<Option<Arc<Mutex<ChannelSlot>>>>/ => Vec<Option<VxSlot>>
 //@map /&\*slot\.lock\(\)\.vx_expect\(\)/ => slot.vx_read()
+//@map /Arc<dyn Validator>/ => VxValidator
 //@map /channels\.iter\(\)\.any\(\|c\| c\.is_some\(\)\)/ => vx_any_some(&channels)
+//@macro defer => {}
 //@macro add_beneficial_output => $1.checked_add($2).ok_or_else(|| policy_error(T_policy_onchain_fee_range, vx_msg()))
 verus! {
 
@@ -146,6 +149,110 @@ impl SimpleValidator {
 //@end
 
 } // impl
+
+// ------------------------------------------------------------------ Node::check_onchain_tx (C08 at the node)
+//@type vls-core/src/util/velocity.rs :: VelocityControl
+//@include frag/velocity_spec.rs
+impl VelocityControl {
+//@fn vls-core/src/util/velocity.rs :: impl VelocityControl :: insert mode=trusted
+//@include frag/c/vc_insert.rs
+//@end
+}
+impl VxValidator {
+    pub uninterp spec fn vp_policy(&self) -> SimplePolicy;
+//@fn vls-core/src/policy/simple_validator.rs :: impl Validator for SimpleValidator :: validate_onchain_tx mode=trusted
+//@include frag/c/sv_validate_onchain_tx.rs
+//@end
+}
+// the part of Node this function touches (sequential mutex model, R11): the node as a wallet, its channel map (read
+// only here) and the fee velocity control inside NodeState
+pub struct VxNodeOn { pub wallet: VxWallet, pub channels: VxChannelsRO, pub fee_velocity_control: VelocityControl, pub rest: VxNodeRest }
+#[verifier::external_body] pub struct VxNodeRest { _p: u8 }
+#[verifier::external_body] pub struct VxChannelsRO { _p: u8 }
+#[verifier::external_body] pub struct SecretKeyStack { _p: u8 }
+// the ready channel (if any) whose funding outpoint is `o`: find_channel_with_funding_outpoint (node.rs, a loop over
+// the channel map; not under contract)
+pub uninterp spec fn funded_channel(c: VxChannelsRO, o: OutPoint) -> Option<VxSlot>;
+pub uninterp spec fn txid_of(tx: Transaction) -> Txid;
+pub open spec fn funded_slots(c: VxChannelsRO, tx: Transaction) -> Seq<Option<VxSlot>> {
+    Seq::new(tx.output@.len(), |k: int| funded_channel(c, OutPoint { txid: txid_of(tx), vout: k as u32 }))
+}
+pub open spec fn values_of(p: Seq<TxOut>) -> Seq<u64> { Seq::new(p.len(), |k: int| amount_sat(p[k].value)) }
+// `(0..tx.output.len()).map(|ndx| find_channel_with_funding_outpoint(&lock, &OutPoint { txid, vout: ndx as u32 })).collect()`
+#[verifier::external_body]
+pub fn vx_funded_slots(c: &VxChannelsRO, txid: Txid, tx: &Transaction) -> (r: Vec<Option<VxSlot>>)
+    requires txid == txid_of(*tx),
+    ensures r@ == funded_slots(*c, *tx)
+{ unimplemented!() }
+// `prev_outs.iter().map(|o| o.value.to_sat()).collect::<Vec<_>>()`
+#[verifier::external_body]
+pub fn vx_values_sat(p: &[TxOut]) -> (r: Vec<u64>) ensures r@ == values_of(p@) { unimplemented!() }
+// tx.weight() plus the witness sizes of the inputs the node signs (the `for (idx, uck) in uniclosekeys.iter().enumerate()`
+// loop): a positive lower bound of the final weight; its exact value is not specified here
+#[verifier::external_body]
+pub fn vx_weight_lower_bound(tx: &Transaction, uniclosekeys: &[Option<(SecretKey, Vec<Vec<u8>>)>], prev_outs: &[TxOut]) -> (r: usize)
+    ensures r > 0
+{ unimplemented!() }
+impl Transaction {
+    #[verifier::external_body]
+    pub fn compute_txid(&self) -> (r: Txid) ensures r == txid_of(*self) { unimplemented!() }
+}
+impl VxNodeOn {
+    // Node::validator(): the factory's validator for this node (same policy on every call)
+    pub uninterp spec fn validator_spec(&self) -> VxValidator;
+    #[verifier::external_body]
+    pub fn validator(&self) -> (r: VxValidator) ensures r == self.validator_spec() { unimplemented!() }
+    // self.clock.now().as_secs(): the clock does not run backwards (the property's non-decreasing timestamps)
+    #[verifier::external_body]
+    pub fn vx_now_secs(&self) -> (r: u64) ensures r >= self.fee_velocity_control.start_sec { unimplemented!() }
+
+    // what the validator was asked and answered, as one predicate over the request
+    pub open spec fn onchain_accepted(self, v: VxValidator, tx: Transaction, segwit_flags: Seq<bool>, prev_outs: Seq<TxOut>,
+        opaths: Seq<DerivationPath>, nb: u64, w: usize) -> bool {
+        let ch = funded_slots(self.channels, tx);
+        &&& outputs_ok_upto(self.wallet, tx, opaths, ch, tx.output@.len() as int)
+        &&& nb as nat + beneficial_sum_upto(self.wallet, tx, opaths, ch, tx.output@.len() as int) == sum_u64(values_of(prev_outs))
+        &&& (!dev_disabled(v.vp_policy()) ==> feerate_sat(nb as nat, w as nat) <= v.vp_policy().max_feerate_per_kw)
+        &&& (any_some(ch) ==> all_true_flags(segwit_flags))
+    }
+
+    pub open spec fn node_check_ok(o: VxNodeOn, f: VxNodeOn, tx: Transaction, segwit_flags: Seq<bool>, prev_outs: Seq<TxOut>,
+        opaths: Seq<DerivationPath>, nb: u64, w: usize, now: u64) -> bool {
+        &&& w > 0 && nb * 1000 <= u64::MAX
+        &&& o.onchain_accepted(o.validator_spec(), tx, segwit_flags, prev_outs, opaths, nb, w)
+        &&& vc_accepts(vc_abs(o.fee_velocity_control), now, (nb * 1000) as u64)
+        &&& vc_abs(f.fee_velocity_control) == vc_step(vc_abs(o.fee_velocity_control), now, (nb * 1000) as u64)
+    }
+
+//@fn vls-core/src/node.rs :: impl Node :: check_onchain_tx props=C08,C12
+//@sigsub /&self/ => &mut self
+    requires
+        opaths@.len() == tx.output@.len(),                       // indexing panics otherwise (abort)
+        vc_wf(old(self).fee_velocity_control),
+        sum_u64(values_of(prev_outs@)) <= 0x40_0000_0000_0000,   // input range: below 2^54 sat (the supply is below 2^51)
+    ensures
+        final(self).wallet == old(self).wallet, final(self).channels == old(self).channels,
+        // Ok under a non-permissive policy: the validator accepted the transaction against the channels found by funding
+        // outpoint, and the value leaving the node was counted by (and fits) the fee velocity control
+        r.is_ok() && c08_strict() ==> exists|nb: u64, w: usize, now: u64|
+            #[trigger] Self::node_check_ok(*old(self), *final(self), *tx, segwit_flags@, prev_outs@, opaths@, nb, w, now),   //[C08.node.accepted-and-fee-counted]
+//@proof before /^\s*Ok\(\(\)\)\s*$/
+        proof {
+            if c08_strict() {
+                assert(Self::node_check_ok(*old(self), *self, *tx, segwit_flags@, prev_outs@, opaths@, non_beneficial_sat, weight_lower_bound, now));
+            }
+        }
+//@sub /(?s)let channels: Vec<Option<VxSlot>> = \(0\.\.tx\.output\.len\(\)\)\s*\.map\(\|ndx\| \{.*?\}\)\s*\.collect\(\);/ => let channels: Vec<Option<VxSlot>> = vx_funded_slots(&channels_lock, txid, tx);
+//@sub /let channels_lock = self\.get_channels\(\);/ => let channels_lock = &self.channels;
+//@sub /(?s)let mut weight_lower_bound = tx\.weight\(\)\.to_wu\(\) as usize;\s*for \(idx, uck\) in uniclosekeys\.iter\(\)\.enumerate\(\) \{.*?\n        \}\n/ => let weight_lower_bound = vx_weight_lower_bound(tx, uniclosekeys, prev_outs);\n
+//@sub /let values_sat = prev_outs\.iter\(\)\.map\(\|o\| o\.value\.to_sat\(\)\)\.collect::<Vec<_>>\(\);/ => let values_sat = vx_values_sat(prev_outs);
+//@sub /validator\.validate_onchain_tx\(\s*self,/ => validator.validate_onchain_tx(&self.wallet,
+//@sub /drop\(channels_lock\);/ => 
+//@sub /let mut state = self\.get_state\(\);/ => 
+//@sub /let now = self\.clock\.now\(\)\.as_secs\(\);/ => let now = self.vx_now_secs();
+//@sub /state\.fee_velocity_control/ => self.fee_velocity_control
+//@end
+}
 
 pub open spec fn dev_disabled(p: SimplePolicy) -> bool {
     match p.dev_flags { Some(f) => f.disable_beneficial_balance_checks, None => false }
